@@ -158,7 +158,7 @@ macro_rules! row_ident {
 // row) exhausts 24 GB as soon as the row is not `Plane::new()`. The default path's content is therefore
 // decided on the creating frame (c07_create_*: `Plane::from_downlink` = fresh row + the very same
 // `update_from_downlink`), and "a later frame behaves like -U" with the marker stub (c19_neutral_tc4).
-// @harness name=c07_row_tc4_p5_update props=C07,C11 tier=quick cap=1500
+// @harness name=c07_row_tc4_p5_update props=C07,C11:thorough tier=quick cap=1500
 // row step, -U path: DF17 TC4, characters 5,6 symbolic
 row_ident!(c07_row_tc4_p5_update, 4, 5, true);
 // @harness name=c07_row_tc2_blank_update props=C07,C11:thorough tier=thorough cap=900
